@@ -1,3 +1,4 @@
+#![allow(dead_code)]
 //! Argument decoding and canonical printing shared by all operations.
 
 /// Space-separated decimal numbers, "-" for empty.
